@@ -1,7 +1,9 @@
 """C09 obligations: a fault confined to one connecting client never makes the duplex listener fail."""
+import re
+
 import z3
 
-from interp import Agg, Cell, Enum, Opaque, Ref, none, some
+from interp import Agg, Cell, Enum, Inconclusive, Opaque, Panic, Ref, none, some
 from models import MODELS, OneshotSenderV, deref, model
 
 
@@ -42,6 +44,12 @@ def _tcp_peer_addr(ctx, a, c):
     return Enum("Result", "Ok", 0, [sock_addr(ctx, "peer")])
 
 
+@model("TcpListener::poll_accept", doc="environment stub: tokio TcpListener::poll_accept -> Ready(Ok((socket, peer address)))")
+def _tcp_listener_poll_accept(ctx, a, c):
+    kind, addr = ctx.tcp_accept
+    return Enum("Poll", "Ready", 0, [Enum("Result", "Ok", 0, [Agg("tuple", [TokioTcpV(), addr])])])
+
+
 @model("TcpStream::local_addr", doc="environment stub: tokio TcpStream::local_addr -> Ok (getsockname on a valid descriptor)")
 def _tcp_local_addr(ctx, a, c):
     return Enum("Result", "Ok", 0, [sock_addr(ctx, "local")])
@@ -52,34 +60,85 @@ def sock_addr(ctx, tag):
     return Enum("SocketAddr", "V6" if v6 else "V4", 1 if v6 else 0, [Agg("addr", [z3.BitVec(tag + "_ip", 128), z3.BitVec(tag + "_port", 16)])])
 
 
-@model("SocketAddr::ip", doc="std::net")
-def _sa_ip(ctx, a, c):
+class UnixSockAddrV:
+    """tokio::net::unix::SocketAddr of an accepted peer: unnamed, or bound to a path that is or is not UTF-8"""
+
+    def __init__(self, named, utf8):
+        self.named, self.utf8 = named, utf8
+
+
+class PathV:
+    def __init__(self, utf8):
+        self.utf8 = utf8
+
+
+class UnixListenerV:
+    def __init__(self, outcome):
+        self.outcome = outcome
+
+
+@model("UnixListener::poll_accept", doc="environment stub: tokio UnixListener::poll_accept -> Pending | Ready(Err) (the listener itself failed) | Ready(Ok((stream, peer address))) with an arbitrary peer address")
+def _unix_poll_accept(ctx, a, c):
+    l = deref(ctx, a[0])
+    if l.outcome == "pending":
+        return Enum("Poll", "Pending", 1, [])
+    if l.outcome == "err":
+        return Enum("Poll", "Ready", 0, [Enum("Result", "Err", 1, [Opaque("io::Error(listener)")])])
+    return Enum("Poll", "Ready", 0, [Enum("Result", "Ok", 0, [Agg("tuple", [Opaque("tokio UnixStream"), l.peer])])])
+
+
+@model("SocketAddr::as_pathname", doc="std/tokio unix SocketAddr: Some(path) for a peer bound to a filesystem path")
+def _as_pathname(ctx, a, c):
     sa = deref(ctx, a[0])
-    return Enum("IpAddr", sa.variant, sa.idx, [sa.f[0].f[0]])
-
-
-@model("SocketAddr::port", doc="std::net")
-def _sa_port(ctx, a, c):
-    return deref(ctx, a[0]).f[0].f[1]
-
-
-@model("SocketAddr::new", doc="std::net")
-def _sa_new(ctx, a, c):
-    ip = a[0]
-    return Enum("SocketAddr", ip.variant, ip.idx, [Agg("addr", [ip.f[0], a[1]])])
-
-
-@model("Ipv6Addr::to_ipv4_mapped", doc="std::net: Some(v4) for ::ffff:a.b.c.d")
-def _to_v4_mapped(ctx, a, c):
-    ip = deref(ctx, a[0])
-    if ctx.branch(z3.Extract(127, 32, ip) == z3.BitVecVal(0xFFFF, 96), "v4-mapped"):
-        return some(ip)
+    if not isinstance(sa, UnixSockAddrV):
+        raise Inconclusive("as_pathname on " + repr(sa))
+    if sa.named:
+        return some(Ref(Cell(PathV(sa.utf8), "path")))
     return none()
+
+
+@model("Utf8Path::from_path", doc="camino: Some iff the path is valid UTF-8")
+def _utf8_from_path(ctx, a, c):
+    p = deref(ctx, a[0])
+    if ctx.branch(p.utf8, "peer path is UTF-8"):
+        return some(Ref(Cell(Opaque("Utf8Path"), "utf8path")))
+    return none()
+
+
+@model("Utf8Path::to_owned", "<Utf8Path as ToOwned>::to_owned", doc="camino")
+def _utf8_to_owned(ctx, a, c):
+    return Opaque("Utf8PathBuf")
+
+
+@model("<SocketAddr as TryInto>::try_into", doc="core: the blanket TryInto, i.e. <UnixAddr as TryFrom<tokio::net::unix::SocketAddr>>::try_from (hyperdriver's impl, run from MIR)")
+def _try_into_unixaddr(ctx, a, c):
+    m = re.search(r"<(.*) as TryInto<(.*)>>::try_into", c)
+    if not m or "UnixAddr" not in m.group(2):
+        raise Inconclusive("try_into: " + c)
+    f = ctx.prog.find_one(r"stream::unix::<impl at src/stream/unix\.rs:\d+:\d+: \d+:\d+>::try_from$", "^" + re.escape(m.group(1).strip()) + "$")
+    return ctx.exec_fn(f, [a[0]])
+
+
+@model("Option::transpose", doc="core: Option<Result<T, E>> -> Result<Option<T>, E>")
+def _opt_transpose(ctx, a, c):
+    o = a[0]
+    if o.variant == "None":
+        return Enum("Result", "Ok", 0, [none()])
+    r = o.f[0]
+    if r.variant == "Ok":
+        return Enum("Result", "Ok", 0, [some(r.f[0])])
+    return r
+
+
+@model("io::Error::new", "Error::new", doc="std::io::Error::new(kind, msg): an opaque error value")
+def _io_error_new(ctx, a, c):
+    return Opaque("io::Error(new)")
 
 
 def obligations(prog, src, tier, seed):
     obs = []
     tcp_info(prog, obs)
+    unix_accept(prog, obs)
     import ob_serve
     obs += ob_serve.obligations(prog, src, tier, seed, "C09")
     f_accept = prog.find_one(r"stream::duplex::<impl at src/stream/duplex\.rs:\d+:\d+: \d+:\d+>::poll_accept$")
@@ -152,9 +211,16 @@ def tcp_info(prog, obs):
     Stream::new, Serving::poll_once): it must not panic whatever state the peer left the socket in"""
     f_info = prog.find_one(r"stream::tcp::<impl at src/stream/tcp\.rs:\d+:\d+: \d+:\d+>::info$")
 
+    f_tcp_accept = prog.find_one(r"stream::tcp::<impl at src/stream/tcp\.rs:\d+:\d+: \d+:\d+>::poll_accept$")
+
     def run(ctx):
-        remote = sock_addr(ctx, "accepted")
-        st = Agg("struct:TcpStream", [TokioTcpV(), some(remote)])
+        # the stream is the one the crate's own `<TcpListener as Accept>::poll_accept` builds from what
+        # the OS hands out: (socket, peer address reported by accept())
+        ctx.tcp_accept = ("ok", sock_addr(ctx, "accepted"))
+        r = ctx.exec_fn(f_tcp_accept, [Ref(Cell(Opaque("tokio TcpListener"), "listener")), Ref(Cell(Opaque("Context"), "cx"))])
+        if r.variant != "Ready" or r.f[0].variant != "Ok":
+            raise Panic("accept of a connection that the OS handed out did not produce a stream: " + repr(r))
+        st = r.f[0].f[0]
         return ctx.exec_fn(f_info, [Ref(Cell(st, "stream"))])
 
     def check(p):
@@ -162,9 +228,47 @@ def tcp_info(prog, obs):
             return [("connection info of an accepted TCP stream panics inside the accept loop (" + str(p.value)[:70] + ")", False)]
         return [("witness:reach", z3.BoolVal(True))]
 
-    obs.append({"name": "c09_tcp_stream_info_total", "family": "tcp_info", "funcs": ["<stream::tcp::TcpStream as HasConnectionInfo>::info", "stream::tcp::make_canonical"],
+    obs.append({"name": "c09_tcp_stream_info_total", "family": "tcp_info", "funcs": ["<tokio::net::TcpListener as Accept>::poll_accept", "stream::tcp::TcpStream::server", "<stream::tcp::TcpStream as HasConnectionInfo>::info", "stream::tcp::make_canonical"],
                 "bound": "server-side stream (remote address recorded at accept); getpeername() fails or succeeds (symbolic), getsockname() succeeds; IPv4 / IPv6 / v4-mapped addresses",
                 "doc": "info() of an accepted stream never panics, also for a connection the peer reset before it was accepted",
                 "run": run, "check": check, "crosscheck": False,
                 "cex_extract": lambda p, m: {"family": "tcp_reset_before_accept"},
+                "judge": lambda scn, out: out.get("result", "").startswith(("panic", "crash")) or out.get("server_alive") == "0" or int(out.get("served", "2")) < 2})
+
+
+def unix_accept(prog, obs):
+    """`<UnixListener as Accept>::poll_accept`: whatever address the connecting peer is bound to, accepting
+    it must not produce an error (an accept error ends the serving loop)"""
+    f_acc = prog.find_one(r"stream::unix::<impl at src/stream/unix\.rs:\d+:\d+: \d+:\d+>::poll_accept$")
+
+    def run(ctx):
+        outcome = ctx.choose([(True, "ok"), (True, "err"), (True, "pending")], "the listener's own accept")
+        l = UnixListenerV(outcome)
+        named = ctx.choose([(True, False), (True, True)], "peer socket is bound to a path")
+        l.peer = UnixSockAddrV(named, z3.Bool("peer_path_is_utf8"))
+        ctx.l = l
+        return ctx.exec_fn(f_acc, [Ref(Cell(l, "listener")), Ref(Cell(Opaque("Context"), "cx"))])
+
+    def check(p):
+        if p.outcome == "panic":
+            return [("accepting a Unix connection panics: " + str(p.value)[:80], False)]
+        r = p.value
+        l = p.ctx.l
+        if l.outcome == "pending":
+            return [("pending accept stays pending", r.variant == "Pending")]
+        res = r.f[0] if r.variant == "Ready" else None
+        props = [("accept result is ready when the listener's is", res is not None)]
+        if res is not None:
+            if l.outcome == "err":
+                props.append(("a listener error is reported", res.variant == "Err"))
+            else:
+                props.append(("accepting a connection fails because of the address the connecting client is bound to (the error ends the serving loop)", res.variant == "Ok"))
+        props.append(("witness:reach", z3.BoolVal(True)))
+        return props
+
+    obs.append({"name": "c09_unix_accept_total", "family": "unix_accept", "funcs": ["<tokio::net::UnixListener as Accept>::poll_accept", "<UnixAddr as TryFrom<tokio::net::unix::SocketAddr>>::try_from"],
+                "bound": "the listener's accept pending / failing / succeeding; the peer unnamed, or bound to a path that is or is not UTF-8 (symbolic)",
+                "doc": "an accept error is produced only when the listener itself fails, never because of a property of one connecting client",
+                "run": run, "check": check, "crosscheck": False,
+                "cex_extract": lambda p, m: {"family": "unix_client_path", "utf8": int(bool(z3.is_true(m.eval(z3.Bool("peer_path_is_utf8"), model_completion=True))))},
                 "judge": lambda scn, out: out.get("result", "").startswith(("panic", "crash")) or out.get("server_alive") == "0" or int(out.get("served", "2")) < 2})
